@@ -168,3 +168,128 @@ theorem next_token_matches (table : LexTable) (fuel : Nat) (s : List Char) (p : 
   exact ⟨tok, hw, ht⟩
 
 end Aidl.Props.RegexSound
+
+/-! ## Completeness: the matcher finds a match whenever the regular language has one
+
+If some word `w` of the language of `r` is a prefix of the input and the continuation succeeds after it,
+the matcher succeeds (with a possibly different word: it returns the leftmost-first one) — provided the
+bound on `star` iterations is at least the length of `w`. Together with soundness:
+`matchAt r fuel s p = none` exactly when no prefix of `s` is a word of the language. -/
+
+namespace Aidl.Props.RegexSound
+open Aidl.Regex Aidl.Javadoc Aidl.Props.JavadocTotal Aidl.Props.LexerBounds Aidl.Props.LexerProgress
+
+/-- what completeness means for one expression and one word -/
+def CompleteFor (r : Re) (w : List Char) : Prop :=
+  ∀ (fuel : Nat) (s' : List Char) (p : Nat) (k : K) (e : Nat), w.length ≤ fuel →
+    k s' (p + utf8Len w) = some e → ∃ e', m r fuel (w ++ s') p k = some e'
+
+/-- the same for the loop of `star`, with independent bounds for the body and the iteration count -/
+def LoopCompleteFor (a : Re) (w : List Char) : Prop :=
+  ∀ (bf n : Nat) (s' : List Char) (p : Nat) (k : K) (e : Nat), w.length ≤ n → w.length ≤ bf →
+    k s' (p + utf8Len w) = some e → ∃ e', starLoop (m a bf) k n (w ++ s') p = some e'
+
+theorem starLoop_nil_complete (body : List Char → Nat → K → Option Nat) (k : K) (n : Nat) (s : List Char) (p e : Nat)
+    (h : k s p = some e) : ∃ e', starLoop body k n s p = some e' := by
+  cases n with
+  | zero => exact ⟨e, by simpa [starLoop] using h⟩
+  | succ n =>
+    simp only [starLoop]
+    split
+    · exact ⟨_, rfl⟩
+    · exact ⟨e, h⟩
+
+theorem m_complete {r : Re} {w : List Char} (h : Matches r w) :
+    CompleteFor r w ∧ (∀ a, r = .star a → LoopCompleteFor a w) := by
+  induction h with
+  | eps =>
+    refine ⟨?_, fun a ha => by cases ha⟩
+    intro fuel s' p k e _ hk
+    exact ⟨e, by simpa [m, utf8Len_nil] using hk⟩
+  | cls rs c hin =>
+    refine ⟨?_, fun a ha => by cases ha⟩
+    intro fuel s' p k e _ hk
+    refine ⟨e, ?_⟩
+    simp only [List.cons_append, List.nil_append, m, hin, if_true]
+    rw [utf8Len_cons, utf8Len_nil] at hk
+    simpa using hk
+  | seq a b u v _ _ iha ihb =>
+    refine ⟨?_, fun a' ha => by cases ha⟩
+    intro fuel s' p k e hlen hk
+    rw [List.length_append] at hlen
+    obtain ⟨e2, h2⟩ := ihb.1 fuel s' (p + utf8Len u) k e (by omega) (by rw [utf8Len_append, ← Nat.add_assoc] at hk; exact hk)
+    obtain ⟨e1, h1⟩ := iha.1 fuel (v ++ s') p (fun s1 p1 => m b fuel s1 p1 k) e2 (by omega) h2
+    exact ⟨e1, by simpa [m, List.append_assoc] using h1⟩
+  | altL a b u _ ih =>
+    refine ⟨?_, fun a' ha => by cases ha⟩
+    intro fuel s' p k e hlen hk
+    obtain ⟨e1, h1⟩ := ih.1 fuel s' p k e hlen hk
+    exact ⟨e1, by simp [m, h1]⟩
+  | altR a b u _ ih =>
+    refine ⟨?_, fun a' ha => by cases ha⟩
+    intro fuel s' p k e hlen hk
+    obtain ⟨e1, h1⟩ := ih.1 fuel s' p k e hlen hk
+    simp only [m]
+    split
+    · exact ⟨_, rfl⟩
+    · exact ⟨e1, h1⟩
+  | starNil a =>
+    have hl : LoopCompleteFor a [] := by
+      intro bf n s' p k e _ _ hk
+      rw [utf8Len_nil, Nat.add_zero] at hk
+      exact starLoop_nil_complete _ k n _ p e hk
+    refine ⟨?_, fun a' ha => by cases ha; exact hl⟩
+    intro fuel s' p k e hlen hk
+    simp only [m]
+    exact hl fuel fuel s' p k e hlen hlen hk
+  | starCons a u v _ _ ihu ihv =>
+    have hl : LoopCompleteFor a (u ++ v) := by
+      intro bf n s' p k e hn hbf hk
+      have hv := ihv.2 a rfl
+      by_cases hu : u = []
+      · subst hu
+        simpa using hv bf n s' p k e (by simpa using hn) (by simpa using hbf) (by simpa using hk)
+      · have hupos : 0 < utf8Len u := by
+          cases u with
+          | nil => exact absurd rfl hu
+          | cons c cs => rw [utf8Len_cons]; have := utf8Size_pos c; omega
+        have hulen : 0 < u.length := List.length_pos_iff.mpr hu
+        rw [List.length_append] at hn hbf
+        cases n with
+        | zero => omega
+        | succ n =>
+          simp only [starLoop]
+          obtain ⟨e2, h2⟩ := hv bf n s' (p + utf8Len u) k e (by omega) (by omega)
+            (by rw [utf8Len_append, ← Nat.add_assoc] at hk; exact hk)
+          obtain ⟨e1, h1⟩ := ihu.1 bf (v ++ s') p
+            (fun s1 p1 => if p < p1 then starLoop (m a bf) k n s1 p1 else none) e2 (by omega)
+            (by simp only [show p < p + utf8Len u by omega, if_true]; exact h2)
+          rw [List.append_assoc, h1]
+          exact ⟨e1, rfl⟩
+    refine ⟨?_, fun a' ha => by cases ha; exact hl⟩
+    intro fuel s' p k e hlen hk
+    simp only [m]
+    exact hl fuel fuel s' p k e hlen hlen hk
+
+/-- **an anchored match exists whenever a prefix of the input is a word of the language** -/
+theorem matchAt_complete (r : Re) (w s' : List Char) (h : Matches r w) (fuel p : Nat) (hf : w.length ≤ fuel) :
+    ∃ e, matchAt r fuel (w ++ s') p = some e := by
+  unfold matchAt
+  exact (m_complete h).1 fuel s' p _ (p + utf8Len w) hf rfl
+
+/-- **the matcher decides whether a prefix of the input is a word of the language** -/
+theorem matchAt_none_iff (r : Re) (fuel : Nat) (s : List Char) (p : Nat) (hf : s.length ≤ fuel) :
+    matchAt r fuel s p = none ↔ ∀ w s', s = w ++ s' → ¬ Matches r w := by
+  constructor
+  · intro hnone w s' hs hw
+    subst hs
+    obtain ⟨e, he⟩ := matchAt_complete r w s' hw fuel p (by rw [List.length_append] at hf; omega)
+    rw [hnone] at he; cases he
+  · intro hno
+    cases h : matchAt r fuel s p with
+    | none => rfl
+    | some e =>
+      obtain ⟨w, s', hs, hw, _⟩ := matchAt_sound r fuel s p e h
+      exact absurd hw (hno w s' hs)
+
+end Aidl.Props.RegexSound
